@@ -27,7 +27,9 @@ def register_command(subparsers):
 def extract_archive(archive_file: pathlib.Path, staging_path: pathlib.Path):
     try:
         process = subprocess.Popen(
-            ["tar", "xzf", str(archive_file), "-C", str(staging_path)],
+            # N.B. tar interprets a relative file name that contains a colon
+            # as a file on a remote machine.
+            ["tar", "xzf", str(archive_file.absolute()), "-C", str(staging_path)],
             shell=False,
         )
         process.wait()
